@@ -90,6 +90,26 @@ theorem C05_eph_request_local (st : St) (j : Nat) (r : Req) (t : Int) (he : r.ep
       · rename_i h; exact absurd h.2 he
       · exact ⟨by simp, rfl⟩
 
+/-- **C05 (who else is connected never matters to a fast-forward)**: a request of a synchronised client that is past its
+handshake and carries an id at or above the one being sent moves the publisher to the id after it, whatever clients -
+ephemeral or not, stalled or not - are tracked.  (The seeded change that evaluates this test with the loop variables of
+the *last* tracked client breaks exactly this.) -/
+theorem C05_sync_fast_forward (st : St) (j : Nat) (r : Req) (t : Int)
+    (hs : ¬ r.mid ≤ OF.Facts.MSG_ID_SPECIAL) (hn : (!st.clients.any (·.1 == r.cid ++ r.uid) && r.new) = false)
+    (he : r.eph = 0) (hr : r.mid ≥ st.msgId) :
+    (onReq st j r t).2.2 = .ffwd ∧ (onReq st j r t).1.minSendId = r.mid + 1 := by
+  unfold onReq
+  simp only [hs, if_false, hn, Bool.false_eq_true]
+  rw [if_pos ⟨hr, he⟩]
+  exact ⟨rfl, rfl⟩
+
+/-- the two runs of the fast-forward with and without an extra (ephemeral, stalled) client agree on the id -/
+theorem C05_sync_fast_forward_same (st1 st2 : St) (j : Nat) (r : Req) (t : Int)
+    (hs : ¬ r.mid ≤ OF.Facts.MSG_ID_SPECIAL) (hn : r.new = false) (he : r.eph = 0)
+    (h1 : r.mid ≥ st1.msgId) (h2 : r.mid ≥ st2.msgId) :
+    (onReq st1 j r t).1.minSendId = (onReq st2 j r t).1.minSendId := by
+  rw [(C05_sync_fast_forward st1 j r t hs (by simp [hn]) he h1).2, (C05_sync_fast_forward st2 j r t hs (by simp [hn]) he h2).2]
+
 /-- non-vacuity: a stalled `?` client (never requests again) does not stop the publisher: ids 0 and 1 are both
 published as soon as the synchronised client asks -/
 example : ((run (mkSt 1 false [])
